@@ -34,6 +34,10 @@ import (
 //   values    decode(encode(v)) ≍ v for generated values of every command payload, selector and elements type
 //             (and Datagram, HeaderType, CmdType, FilterType), nil ≍ empty list, relative end times re-expressed.
 //   periods   the TimePeriodType exception on its own: StartTime nil + relative (or absolute) EndTime.
+//   api       the API above FunctionDataCmd and the stack's own codec path: in a World, FeatureLocal.RequestRemoteData
+//             (selector, elements), SetData and UpdateData (full, partial+selector, delete, delete+partial) for a sample
+//             of functions per feature type; the datagram the stack's Sender wrote to the connection is decoded and the
+//             command judged by the same judge as in part shapes.
 
 type c18Pair struct {
 	FT model.FeatureTypeType
@@ -96,12 +100,16 @@ func init() {
 		Rule: "shapes: one case per (feature type, function) pair returned by spine.CreateFunctionData over all feature types of the data model (enumerated completely in both tiers; 3 / 50 generated payloads, selectors and elements per pair), " +
 			"twelve command shapes per payload where the filter table has the selector/elements type; non-trivial if every shape that exists for the function was built, round-tripped and judged and at least one payload was not empty; distinct = (feature type, function, has selector type, has elements type). " +
 			"values: one case per (type, block) over every CmdType payload type, every selector and elements type of FilterType and the four frame types, 200 / 5000 generated values per type at 6 depths x 4 densities x 3 list lengths; non-trivial if at least 100 values were compared and a third of them were not empty; distinct = (kind, type, block). " +
-			"tagtable / fixtures / periods: fixed passes, non-trivial if they examined more than 200 fields / 10 fixtures / 400 periods.",
+			"tagtable / fixtures / periods: fixed passes, non-trivial if they examined more than 200 fields / 10 fixtures / 400 periods. " +
+			"api: one case per feature type (NodeManagement excepted), 3 / 12 functions drawn per case (list functions with a key-covering selector first), every read form and every update form the function has; non-trivial if at least 6 datagrams were decoded from the connection and judged; distinct = (feature type, functions drawn).",
 		Assumptions: []string{
 			"equivalence is the statement's: nil and the empty list are identified; a TimePeriodType without start time may come back with its end time re-expressed against the clock (accepted window: the instants of marshal and unmarshal, measured around the calls, plus 2 s for the two roundings to the second)",
 			"relative end times are generated below 3000 days (beyond 3277 days the duration text is imprecise: known finding D27 of C19)",
 			"strings are valid UTF-8 (encoding/json replaces invalid bytes by design); NaN/Inf do not occur because the data model has no float field",
 			"the filter table is read the way the stack reads it (eebus tags fct/typ); the name-derived cross-check (selectors field = <fct>Selectors, elements field = <fct minus List>Elements) holds for all 241 fields of the unchanged tree",
+			"a notify/write command that carries a filter names its function in cmd.function (SPINE requires it and a command whose payload is emptied by a delete filter is recognisable by nothing else); what filtered reads and partial replies carry there (\"\" on the unchanged tree) is recorded, not judged",
+			"the Go type behind every tagged CmdType / FilterType field is named <field name>+\"Type\" (1 pinned exception); filter fields are named after their function (no exception on the unchanged tree)",
+			"a delete selector/elements combined with partialWithoutSelector=true (what FeatureLocal.UpdateData passes for a pure delete) is not decided by the statement: whether the delete filter reaches the wire is counted (delete-with-partial-flag-drops-delete-filter), not judged; neither is the choice between a full and a bare partial notification for a filter-less UpdateData",
 			"spelling conventions (json name = lower-camel Go field name, omitempty on every pointer and slice) are judged against the pinned exceptions of the unchanged tree (7 names, 13 fields); they are the only way to see a misspelt tag, which a round trip through one and the same struct cannot reveal",
 		},
 		Parts: []rig.Part{
@@ -115,10 +123,27 @@ func init() {
 				return len(types)
 			}, Run: c18Values, Procs: 1},
 			{Name: "periods", Cases: func(t rig.Tier) int { return map[rig.Tier]int{rig.Quick: 4, rig.Thorough: 40}[t] }, Run: c18Periods, Procs: 1},
+			{Name: "api", Cases: func(t rig.Tier) int {
+				if t == rig.Thorough {
+					return len(c18APITypes()) * 4
+				}
+				return len(c18APITypes())
+			}, Run: c18API},
 		},
 		Extra: func(agg *rig.Aggregate, cov map[string]any) {
 			judged := len(agg.Sets["pairs_judged"])
 			fns := len(agg.Sets["functions"])
+			cov["cmd_function_of_filtered_reads_and_partial_replies"] = map[string]any{
+				"observed_read":        agg.Sets["cmd.function_of_filtered_read"],
+				"observed_reply":       agg.Sets["cmd.function_of_filtered_reply"],
+				"pinned":               `""`,
+				"as_on_unchanged_tree": len(agg.Sets["cmd.function_of_filtered_read"]) == 1 && agg.Sets["cmd.function_of_filtered_read"][`""`] && len(agg.Sets["cmd.function_of_filtered_reply"]) == 1 && agg.Sets["cmd.function_of_filtered_reply"][`""`],
+				"note":                 "not decided by the statement: recorded, a difference is not a violation",
+			}
+			cov["delete_filter_with_partial_flag"] = map[string]any{
+				"dropped": agg.Counts["delete-with-partial-flag-drops-delete-filter"], "kept": agg.Counts["delete-with-partial-flag-keeps-delete-filter"],
+				"note": "NotifyOrWriteCmdType(delete selector/elements, partialWithoutSelector=true), reached through FeatureLocal.UpdateData(fn, data, nil, filterDelete): counted, not judged",
+			}
 			cov["exhaustive_dimension"] = map[string]any{
 				"dimension":                "feature type x function as registered by spine.CreateFunctionData",
 				"pairs_in_function_table":  len(pairs),
@@ -426,10 +451,27 @@ func c18FilterTypes(fn model.FunctionType) (selT, elT reflect.Type) {
 
 type c18Shape struct {
 	name                    string
+	kind                    string // read | reply | notify: decides what cmd.function must be when a filter is present
 	build                   func() model.CmdType
 	payload                 bool // the command carries the stored data (else the empty payload of a read)
 	wantPartial, wantDelete bool
 	sel, el, delSel, delEl  any
+	// partialOptional (API path, filter-less UpdateData): the statement does not say whether the notification of a
+	// filter-less update is a full or a bare partial one; a partial filter may be there, but carries nothing
+	partialOptional bool
+	// observeDeleteDrop: a delete selector/elements together with partialWithoutSelector=true. The statement lists the
+	// notify/write shapes individually and does not decide this combination: the filters are counted, not judged
+	observeDeleteDrop bool
+}
+
+func c18Kind(name string) string {
+	switch {
+	case strings.HasPrefix(name, "read"):
+		return "read"
+	case strings.HasPrefix(name, "reply"):
+		return "reply"
+	}
+	return "notify"
 }
 
 func c18Shapes(c *rig.Ctx) {
@@ -460,6 +502,35 @@ func c18Shapes(c *rig.Ctx) {
 	var nonEmpty bool
 	var judged, expected int
 	var trace []string
+	// reply / notify built from function data that holds NOTHING (a fresh object, nothing stored yet): the function is
+	// recognised and the payload is the empty value of the registered type
+	{
+		var fresh api.FunctionDataCmdInterface
+		for _, x := range spine.CreateFunctionData[api.FunctionDataCmdInterface](pr.FT) {
+			if x.FunctionType() == fn {
+				fresh = x
+			}
+		}
+		if fresh == nil || !rig.IsNil(fresh.DataCopyAny()) {
+			c.Violate("store/fresh-function-data-holds-data", "%s/%s: a new function data object does not start empty: %s", pr.FT, fn, rig.JS(fresh.DataCopyAny()))
+		} else {
+			g := c18NewGen(c.Rand, c.Index)
+			for _, s := range []c18Shape{
+				{name: "reply@empty-store", build: func() model.CmdType { return fresh.ReplyCmdType(false) }},
+				{name: "reply-partial@empty-store", build: func() model.CmdType { return fresh.ReplyCmdType(true) }, wantPartial: true},
+				{name: "notify-full@empty-store", build: func() model.CmdType { return fresh.NotifyOrWriteCmdType(nil, nil, false, nil) }},
+				{name: "notify-partial@empty-store", build: func() model.CmdType { return fresh.NotifyOrWriteCmdType(nil, nil, true, nil) }, wantPartial: true},
+			} {
+				s.kind = c18Kind(s.name)
+				expected++
+				if c18OneShape(c, pr, T, selT, elT, nil, s, g) {
+					judged++
+				}
+				c.Count("shape:"+s.name, 1)
+				trace = append(trace, s.name)
+			}
+		}
+	}
 	for rep := 0; rep < reps; rep++ {
 		g := c18NewGen(c.Rand, rep+c.Index)
 		if rep == 0 {
@@ -504,6 +575,7 @@ func c18Shapes(c *rig.Ctx) {
 			nE = reflect.Zero(reflect.PtrTo(elT)).Interface()
 		}
 		add := func(s c18Shape) {
+			s.kind = c18Kind(s.name)
 			if typedNil {
 				s.name += "~typed-nil"
 			}
@@ -537,6 +609,17 @@ func c18Shapes(c *rig.Ctx) {
 		}
 		if s, s2 := mkSel(), mkSel(); s != nil {
 			add(c18Shape{name: "notify-delete+selector,partial+selector", build: func() model.CmdType { return fd.NotifyOrWriteCmdType(s, s2, false, nE) }, payload: true, wantDelete: true, wantPartial: true, delSel: s, sel: s2})
+		}
+		// a delete filter together with partialWithoutSelector=true (what FeatureLocal.UpdateData passes for a pure
+		// delete): observed and counted, see c18Shape.observeDeleteDrop
+		if s := mkSel(); s != nil {
+			add(c18Shape{name: "notify-delete+selector,partial-flag", build: func() model.CmdType { return fd.NotifyOrWriteCmdType(s, nS, true, nE) }, payload: true, observeDeleteDrop: true, delSel: s})
+		}
+		if e := mkEl(); e != nil {
+			add(c18Shape{name: "notify-delete+elements,partial-flag", build: func() model.CmdType { return fd.NotifyOrWriteCmdType(nS, nS, true, e) }, payload: true, observeDeleteDrop: true, delEl: e})
+		}
+		if s, e := mkSel(), mkEl(); s != nil && e != nil {
+			add(c18Shape{name: "notify-delete+selector+elements,partial-flag", build: func() model.CmdType { return fd.NotifyOrWriteCmdType(s, nS, true, e) }, payload: true, observeDeleteDrop: true, delSel: s, delEl: e})
 		}
 		expected += len(shapes)
 		for _, s := range shapes {
@@ -615,6 +698,26 @@ func c18OneShape(c *rig.Ctx, pr c18Pair, T, selT, elT reflect.Type, dp any, s c1
 	} else if _, ok := tree.Datagram.Payload.Cmd[0][string(fn)]; !ok {
 		bad("payload-element-not-named-like-function", "no element %q in the command\n json=%s", fn, c18Clip(js))
 	}
+	want := dp
+	if !s.payload {
+		want = reflect.New(T).Interface()
+	}
+	if !c18JudgeCmd(c, "shape", id, s, fn, T, selT, elT, want, oc, eq, js) {
+		return false
+	}
+	if d := eq.diff(reflect.ValueOf(cmd), reflect.ValueOf(oc), "cmd"); d != "" {
+		bad("cmd-differs-after-roundtrip", "%s\n json=%s", d, c18Clip(js))
+	}
+	return true
+}
+
+// c18JudgeCmd judges one decoded command against what was asked for (shape s, payload want); false if the function
+// was not recognised (nothing else can be judged then). prefix is "shape" (built and round-tripped by the harness) or
+// "api" (built by FeatureLocal, encoded by the stack's Sender, decoded from the connection).
+func c18JudgeCmd(c *rig.Ctx, prefix, id string, s c18Shape, fn model.FunctionType, T, selT, elT reflect.Type, want any, oc model.CmdType, eq *c18Eq, js []byte) bool {
+	bad := func(dev, format string, a ...any) {
+		c.Violate(prefix+"/"+s.name+"/"+dev, "%s: %s", id, fmt.Sprintf(format, a...))
+	}
 	cd, derr := oc.Data()
 	if derr != nil || cd == nil || cd.Function == nil || *cd.Function != fn {
 		got := "<none>"
@@ -626,27 +729,53 @@ func c18OneShape(c *rig.Ctx, pr c18Pair, T, selT, elT reflect.Type, dp any, s c1
 	}
 	if reflect.TypeOf(cd.Value) != reflect.PtrTo(T) {
 		bad("payload-type", "Cmd.Data().Value is %T, the function table registers %s", cd.Value, T)
-	} else {
-		want := dp
-		if !s.payload {
-			want = reflect.New(T).Interface()
-		}
-		if d := eq.diff(reflect.ValueOf(want), reflect.ValueOf(cd.Value), "payload"); d != "" {
-			bad("payload-value", "%s\n json=%s", d, c18Clip(js))
-		}
+	} else if d := eq.diff(reflect.ValueOf(want), reflect.ValueOf(cd.Value), "payload"); d != "" {
+		bad("payload-value", "%s\n json=%s", d, c18Clip(js))
 	}
 	if oc.Function != nil && *oc.Function != "" && *oc.Function != fn {
 		bad("function-field", "cmd.function=%q", *oc.Function)
 	}
+	fnField := "absent"
+	if oc.Function != nil {
+		fnField = fmt.Sprintf("%q", string(*oc.Function))
+		if *oc.Function == fn {
+			fnField = "the function"
+		}
+	}
+	if len(oc.Filter) > 0 {
+		if s.kind == "notify" {
+			// a filtered notify/write names its function in cmd.function: the receiver of a command whose payload a
+			// delete filter has emptied has nothing else to recognise "that same function" by
+			if oc.Function == nil || *oc.Function != fn {
+				bad("function-field-missing", "a notify/write with %d filter(s) carries cmd.function %s, want %q\n json=%s", len(oc.Filter), fnField, fn, c18Clip(js))
+			}
+		} else {
+			// filtered reads and partial replies: what they carry today is recorded (pinned observation: "" on the unchanged tree)
+			c.Seen("cmd.function_of_filtered_"+s.kind, fnField)
+		}
+	} else {
+		c.Seen("cmd.function_of_unfiltered_"+s.kind, fnField)
+	}
 	fp, fdl := oc.ExtractFilter()
-	if (fp != nil) != s.wantPartial {
+	if s.observeDeleteDrop {
+		// not decided by the statement: counted
+		what := "delete-with-partial-flag-keeps-delete-filter"
+		if fdl == nil {
+			what = "delete-with-partial-flag-drops-delete-filter"
+		}
+		c.Count(what, 1)
+		c.Seen(what, prefix+":"+strings.TrimSuffix(s.name, "~typed-nil"))
+		c.Seen("delete-with-partial-flag:filters_on_the_wire", fmt.Sprintf("partial=%v delete=%v filters=%d", fp != nil, fdl != nil, len(oc.Filter)))
+		return true
+	}
+	if (fp != nil) != s.wantPartial && !(s.partialOptional && !s.wantPartial) {
 		bad("partial-filter-presence", "partial filter requested=%v extracted=%v\n json=%s", s.wantPartial, fp != nil, c18Clip(js))
 	}
 	if (fdl != nil) != s.wantDelete {
 		bad("delete-filter-presence", "delete filter requested=%v extracted=%v\n json=%s", s.wantDelete, fdl != nil, c18Clip(js))
 	}
 	wantN := 0
-	if s.wantPartial {
+	if s.wantPartial || (s.partialOptional && fp != nil) {
 		wantN++
 	}
 	if s.wantDelete {
@@ -693,9 +822,6 @@ func c18OneShape(c *rig.Ctx, pr c18Pair, T, selT, elT reflect.Type, dp any, s c1
 	}
 	chk(fp, s.sel, s.el, "partial")
 	chk(fdl, s.delSel, s.delEl, "delete")
-	if d := eq.diff(reflect.ValueOf(cmd), reflect.ValueOf(oc), "cmd"); d != "" {
-		bad("cmd-differs-after-roundtrip", "%s\n json=%s", d, c18Clip(js))
-	}
 	return true
 }
 
@@ -721,6 +847,30 @@ var c18PinnedNoOmit = map[string]bool{
 	"LoadControlStateDataType.Timestamp": true, "LoadControlStateDataType.EventStateConsume": true, "LoadControlStateDataType.AppliedEventActionConsume": true,
 	"LoadControlStateDataType.EventStateProduce": true, "LoadControlStateDataType.AppliedEventActionProduce": true,
 	"TimeSeriesDataElementsType.TimeSeriesSlot": true, "TimeSeriesDataType.TimeSeriesSlot": true,
+}
+
+// Go types of tagged CmdType / FilterType fields of the unchanged tree that are not named <field name>+"Type"
+var c18PinnedTypeNames = map[string]string{
+	"CmdType.HvacSystemFunctionSetPointRelationListData": "HvacSystemFunctionSetpointRelationListDataType",
+}
+
+// filter fields of the unchanged tree whose JSON name derives no command of the command table (<fct>Selectors,
+// <fct minus List>Elements): none. A field renamed together with its tags lands here.
+var c18PinnedNameDerivesNoCommand = map[string]bool{}
+
+// c18TypeNamedLikeField: the link between a tagged field and its Go type is only the spelling; a field holding the
+// selectors/elements/payload type of ANOTHER function compiles, round-trips and passes every shape.
+func c18TypeNamedLikeField(c *rig.Ctx, table, owner string, f reflect.StructField, jn string) {
+	got, want := f.Type.Elem().Name(), f.Name+"Type"
+	c.Count("tagged_fields_type_name_checked", 1)
+	if got == want {
+		return
+	}
+	if c18PinnedTypeNames[owner+"."+f.Name] == got {
+		c.Seen("pinned_irregular_type_names", owner+"."+f.Name+"="+got)
+		return
+	}
+	c.Violate(table+"/"+jn+"-type-not-named-like-field", "%s.%s holds a *%s, by the naming convention of the data model (type = field name + \"Type\") it holds a *%s: the field carries the type of something else", owner, f.Name, got, want)
 }
 
 // command fields the stack serves without function data (handled by NodeManagement itself / result handling)
@@ -758,6 +908,7 @@ func c18TagTable(c *rig.Ctx) {
 			c.Violate("cmdtable/"+jn+"-empty-fct", "CmdType.%s: %s", f.Name, f.Tag)
 			continue
 		}
+		c18TypeNamedLikeField(c, "cmdtable", "CmdType", f, jn)
 		if jn != fct {
 			c.Violate("cmdtable/"+jn+"-fct-differs-from-element-name", "CmdType.%s: the JSON element is %q, the fct tag says %q (the element name IS the function name on the wire)", f.Name, jn, fct)
 		}
@@ -805,6 +956,7 @@ func c18TagTable(c *rig.Ctx) {
 			c.Violate("tagtable/"+jn+"-not-a-struct-pointer", "FilterType.%s has type %s", f.Name, f.Type)
 			continue
 		}
+		c18TypeNamedLikeField(c, "tagtable", "FilterType", f, jn)
 		// what the name says
 		var derived []string
 		kindByName := ""
@@ -851,6 +1003,14 @@ func c18TagTable(c *rig.Ctx) {
 		}
 		if byName == "" {
 			c.Seen("filter_fields_whose_name_derives_no_command", jn)
+			if !c18PinnedNameDerivesNoCommand[jn] {
+				c.Violate("tagtable/"+jn+"-name-derives-no-command", "FilterType.%s (typ:%s fct:%s): neither %q nor its list form is a function of the command table; every filter field of the unchanged tree is named after its function (<fct>Selectors, <fct minus List>Elements)", f.Name, typ, fct, derived)
+			}
+		}
+	}
+	for jn := range c18PinnedNameDerivesNoCommand {
+		if _, ok := ftT.FieldByNameFunc(func(n string) bool { f, _ := ftT.FieldByName(n); return c18JSONName(f) == jn }); !ok {
+			c.Violate("tagtable/"+jn+"-pinned-field-vanished", "the pinned filter field %q does not exist any more", jn)
 		}
 	}
 	for fn := range registered {
@@ -1079,6 +1239,14 @@ func c18Values(c *rig.Ctx) {
 func c18Periods(c *rig.Ctx) {
 	n := 0
 	var ex []string
+	// every second case runs with a local time zone that is not UTC (what the clock of a deployed device looks like):
+	// re-expressing an end time against "the current time" must not depend on the zone the process runs in
+	if c.Index%2 == 1 {
+		old := time.Local
+		time.Local = time.FixedZone("verif+02", 2*3600)
+		defer func() { time.Local = old }()
+		c.Count("period_cases_with_a_non_utc_local_zone", 1)
+	}
 	for i := 0; i < 500; i++ {
 		d := time.Duration(1+c.Rand.Int63n(3000*24*3600)) * time.Second
 		switch i % 5 {
@@ -1165,4 +1333,242 @@ func c18Periods(c *rig.Ctx) {
 	c.Shape(fmt.Sprintf("periods block=%d", c.Index%10))
 	c.NonTrivial(n >= 400)
 	c.Sample(map[string]any{"periods": n, "examples": ex})
+}
+
+// ---------------------------------------------------------------------------
+// part api
+
+func c18APITypes() []model.FeatureTypeType {
+	var ts []model.FeatureTypeType
+	for _, ft := range rig.FeatureTypes() {
+		if ft != model.FeatureTypeTypeNodeManagement && len(rig.FunctionsOf(ft)) > 0 {
+			ts = append(ts, ft)
+		}
+	}
+	return ts
+}
+
+func c18API(c *rig.Ctx) {
+	types := c18APITypes()
+	FT := types[c.Index%len(types)]
+	all := rig.FunctionsOf(FT)
+	// draw the functions: list functions whose selector covers the identifiers first (they have every update form)
+	var rich, plain []rig.FnInfo
+	for _, i := range c.Rand.Perm(len(all)) {
+		if li := rig.ListByFn(all[i].Fn); li != nil && li.SelCoversKeys {
+			rich = append(rich, all[i])
+		} else {
+			plain = append(plain, all[i])
+		}
+	}
+	k := c.Pick(3, 12)
+	var fns []rig.FnInfo
+	for len(fns) < k && (len(rich) > 0 || len(plain) > 0) {
+		if len(rich) > 0 && (len(fns)%3 != 2 || len(plain) == 0) {
+			fns, rich = append(fns, rich[0]), rich[1:]
+		} else {
+			fns, plain = append(fns, plain[0]), plain[1:]
+		}
+	}
+	w := rig.NewWorld(c.Tag())
+	defer w.Close()
+	e := w.AddEntity(model.EntityTypeTypeCEM, []uint{1}, time.Hour)
+	srv := e.GetOrAddFeature(FT, model.RoleTypeServer)
+	cli := e.GetOrAddFeature(FT, model.RoleTypeClient)
+	var props []model.FunctionPropertyType
+	for _, f := range fns {
+		srv.AddFunctionType(f.Fn, true, true)
+		props = append(props, rig.FnProp(f.Fn, true, true))
+	}
+	// a DeviceDiagnosis server with the heartbeat function starts the entity's heartbeat: its notifications must not
+	// fall between a call and the datagram taken for it (the period is an hour here, and the stream is stopped)
+	if hm := e.HeartbeatManager(); hm != nil {
+		hm.StopHeartbeat()
+	}
+	p := w.AddPeer(0)
+	p.Ctr = 100000
+	peerClient, peerServer := rig.FA(p.Addr, []uint{1}, 1), rig.FA(p.Addr, []uint{1}, 2)
+	p.Announce([]rig.FS{rig.NMFS, {Ent: []uint{1}, Id: 1, Typ: FT, Role: model.RoleTypeClient}, {Ent: []uint{1}, Id: 2, Typ: FT, Role: model.RoleTypeServer, Fns: props}})
+	p.Subscribe(peerClient, srv.Address(), FT)
+	p.Tap.Take()
+	rf := p.RD.FeatureByAddress(peerServer)
+	if rig.IsNil(rf) || len(w.Local.SubscriptionManager().SubscriptionsOnFeature(*srv.Address())) != 1 {
+		c.Inconclusive("%s: the world could not be set up (remote server feature known=%v, subscriptions on the local server=%d)", FT, !rig.IsNil(rf), len(w.Local.SubscriptionManager().SubscriptionsOnFeature(*srv.Address())))
+		return
+	}
+	judged := 0
+	var trace, names []string
+
+	// one: run an API call, take what the stack wrote to the connection and judge the single command in it
+	one := func(f rig.FnInfo, s c18Shape, cl model.CmdClassifierType, src, dst *model.FeatureAddressType, want func() any, call func() (*model.MsgCounterType, *model.ErrorType)) {
+		fn := f.Fn
+		selT, elT := c18FilterTypes(fn)
+		id := fmt.Sprintf("%s/%s %s", FT, fn, s.name)
+		bad := func(dev, format string, a ...any) {
+			c.Violate("api/"+s.name+"/"+dev, "%s: %s", id, fmt.Sprintf(format, a...))
+		}
+		p.Tap.Take()
+		m0 := time.Now()
+		var mc *model.MsgCounterType
+		var err *model.ErrorType
+		ok, pan := rig.Guard(20*time.Second, func() { mc, err = call() })
+		if pan != "" {
+			bad("api-panics", "the call panics: %s\n sel=%s el=%s delSel=%s delEl=%s", pan, rig.JS(s.sel), rig.JS(s.el), rig.JS(s.delSel), rig.JS(s.delEl))
+			return
+		}
+		if !ok {
+			c.Inconclusive("%s: the call did not return within 20 s", id)
+			return
+		}
+		outs := p.Tap.Take()
+		eq := &c18Eq{m0: m0, t1: time.Now()}
+		c.Count("api:"+s.name, 1)
+		if err != nil {
+			// a refused update sends nothing; which updates are accepted is not this property's
+			c.Count("api_calls_refused", 1)
+			c.Seen("api_calls_refused", s.name+": "+err.String())
+			if len(outs) != 0 {
+				bad("sent-although-refused", "the call returned %s and %d datagram(s) were written", err.String(), len(outs))
+			}
+			return
+		}
+		if len(outs) != 1 || len(outs[0].Payload.Cmd) != 1 {
+			bad("not-one-command-sent", "the call succeeded and %d datagram(s) were written to the peer's connection: %s", len(outs), c18Clip([]byte(rig.JS(outs))))
+			return
+		}
+		h := outs[0].Header
+		if h.CmdClassifier == nil || *h.CmdClassifier != cl || rig.JS(h.AddressSource) != rig.JS(src) || rig.JS(h.AddressDestination) != rig.JS(dst) || (mc != nil && (h.MsgCounter == nil || *h.MsgCounter != *mc)) {
+			bad("header", "classifier/addresses/counter of the datagram differ from the call: %s (want %s from %s to %s, counter %s)", rig.JS(h), cl, rig.JS(src), rig.JS(dst), rig.JS(mc))
+		}
+		oc := outs[0].Payload.Cmd[0]
+		if c18JudgeCmd(c, "api", id, s, fn, f.T, selT, elT, want(), oc, eq, []byte(rig.JS(oc))) {
+			judged++
+		}
+		trace = append(trace, string(fn)+" "+s.name)
+	}
+	emptyOf := func(f rig.FnInfo) func() any { return func() any { return reflect.New(f.T).Interface() } }
+	stored := func(f rig.FnInfo) func() any {
+		return func() any {
+			if d := srv.DataCopy(f.Fn); !rig.IsNil(d) {
+				return d
+			}
+			return reflect.New(f.T).Interface()
+		}
+	}
+	for fi, f := range fns {
+		f := f
+		fn := f.Fn
+		names = append(names, string(fn))
+		selT, elT := c18FilterTypes(fn)
+		mk := func(t reflect.Type) any {
+			if t == nil {
+				return nil
+			}
+			g := c18NewGen(c.Rand, c.Rand.Intn(72))
+			g.maxDepth = 2 + c.Rand.Intn(2)
+			return g.ptrTo(t)
+		}
+		// omitted filter parts as typed nil pointers for every second function
+		var nS, nE any
+		if fi%2 == 1 && selT != nil {
+			nS = reflect.Zero(reflect.PtrTo(selT)).Interface()
+		}
+		if fi%2 == 1 && elT != nil {
+			nE = reflect.Zero(reflect.PtrTo(elT)).Interface()
+		}
+		read := func(name string, sel, el any) {
+			s := c18Shape{name: name, kind: "read", wantPartial: sel != nil || el != nil, sel: sel, el: el}
+			sa, ea := sel, el
+			if sa == nil {
+				sa = nS
+			}
+			if ea == nil {
+				ea = nE
+			}
+			one(f, s, model.CmdClassifierTypeRead, cli.Address(), peerServer, emptyOf(f), func() (*model.MsgCounterType, *model.ErrorType) {
+				return cli.RequestRemoteData(fn, sa, ea, rf)
+			})
+		}
+		read("request", nil, nil)
+		if selT != nil {
+			read("request+selector", mk(selT), nil)
+		}
+		if elT != nil {
+			read("request+elements", nil, mk(elT))
+		}
+		if selT != nil && elT != nil {
+			read("request+selector+elements", mk(selT), mk(elT))
+		}
+		update := func(s c18Shape, data any, fp, fdl *model.FilterType) {
+			s.kind, s.payload = "notify", true
+			one(f, s, model.CmdClassifierTypeNotify, srv.Address(), peerClient, stored(f), func() (*model.MsgCounterType, *model.ErrorType) {
+				return nil, srv.UpdateData(fn, data, fp, fdl)
+			})
+		}
+		g := c18NewGen(c.Rand, fi+c.Index)
+		g.fill, g.maxDepth = 1.0, 3
+		li := rig.ListByFn(fn)
+		first := g.ptrTo(f.T)
+		if li != nil && li.SelCoversKeys {
+			var items []reflect.Value
+			for id := 0; id < 4; id++ {
+				items = append(items, li.NewItem(c.Rand, id))
+			}
+			first = li.MkList(items)
+		}
+		one(f, c18Shape{name: "setdata", kind: "notify", payload: true}, model.CmdClassifierTypeNotify, srv.Address(), peerClient, func() any { return first },
+			func() (*model.MsgCounterType, *model.ErrorType) { srv.SetData(fn, first); return nil, nil })
+		if li == nil || !li.SelCoversKeys {
+			update(c18Shape{name: "updatedata", partialOptional: true}, g.ptrTo(f.T), nil, nil)
+			continue
+		}
+		const dom = 4
+		if u, ok := li.GenUpdate(c.Rand, 3, dom); ok { // partial + selector
+			fp, _, _ := li.Filters(u)
+			update(c18Shape{name: "updatedata-partial+selector", wantPartial: true, sel: li.Selector(u.SelKey).Interface()}, li.MkList(rig.CloneItems(u.Items)), fp, nil)
+		}
+		if u, ok := li.GenUpdate(c.Rand, 1, dom); ok { // partial by identifiers, no selector
+			fp, _, _ := li.Filters(u)
+			update(c18Shape{name: "updatedata-partial", wantPartial: true}, li.MkList(rig.CloneItems(u.Items)), fp, nil)
+		}
+		if u, ok := li.GenUpdate(c.Rand, 4, dom); ok { // pure delete by selector: FeatureLocal passes partialWithoutSelector=true
+			_, fdl, _ := li.Filters(u)
+			update(c18Shape{name: "updatedata-delete+selector", observeDeleteDrop: true, delSel: li.Selector(u.DelSel).Interface()}, li.MkList(nil), nil, fdl)
+		}
+		if u, ok := li.GenUpdate(c.Rand, 5, dom); ok { // pure delete of elements
+			_, fdl, _ := li.Filters(u)
+			update(c18Shape{name: "updatedata-delete+elements", observeDeleteDrop: true}, li.MkList(nil), nil, fdl)
+		}
+		if u, ok := li.GenUpdate(c.Rand, 7, dom); ok { // delete by selector + partial by identifiers (no partial selector)
+			fp, fdl, _ := li.Filters(u)
+			update(c18Shape{name: "updatedata-delete+selector,partial", observeDeleteDrop: true, delSel: li.Selector(u.DelSel).Interface()}, li.MkList(rig.CloneItems(u.Items)), fp, fdl)
+		}
+		// delete by selector AND partial by selector: both filters are decided by the statement
+		up, ok1 := li.GenUpdate(c.Rand, 3, dom)
+		ud, ok2 := li.GenUpdate(c.Rand, 4, dom)
+		if ok1 && ok2 {
+			fp, _, _ := li.Filters(up)
+			_, fdl, _ := li.Filters(ud)
+			update(c18Shape{name: "updatedata-delete+selector,partial+selector", wantPartial: true, wantDelete: true, sel: li.Selector(up.SelKey).Interface(), delSel: li.Selector(ud.DelSel).Interface()},
+				li.MkList(rig.CloneItems(up.Items)), fp, fdl)
+		}
+		update(c18Shape{name: "updatedata", partialOptional: true}, li.MkList(items4(li, c.Rand)), nil, nil)
+	}
+	if len(p.Tap.Broken) > 0 {
+		c.Violate("api/undecodable-datagram", "%s: %d datagram(s) written by the stack do not decode: %s", FT, len(p.Tap.Broken), c18Clip([]byte(p.Tap.Broken[0])))
+	}
+	c.Count("api_datagrams_judged", int64(judged))
+	c.Events(int64(judged))
+	c.Seen("api_feature_types", string(FT))
+	c.Shape(fmt.Sprintf("api/%s/%s", FT, strings.Join(names, ",")))
+	c.NonTrivial(judged >= 6)
+	c.Sample(map[string]any{"feature_type": FT, "functions": names, "calls": trace, "datagrams_judged": judged})
+}
+
+func items4(li *rig.ListInfo, r *rand.Rand) []reflect.Value {
+	var items []reflect.Value
+	for id := 0; id < 3; id++ {
+		items = append(items, li.NewItem(r, id))
+	}
+	return items
 }
